@@ -460,6 +460,53 @@ def real_thread(cfg, prog, trace, sched, me):
         sched.finish(me)
 
 
+def line_preempt_run(cfg, prog_a, prog_b, k):
+    """Thread A runs prog_a and is suspended after the k-th executed line of config.py; while it is
+    suspended thread B runs the whole of prog_b; then A resumes.  Sub-operation granularity."""
+    import sys
+    ta, tb = [], []
+    gate, resume = threading.Event(), threading.Event()
+    st = {"n": 0, "fired": False}
+
+    def local(frame, event, arg):
+        if event == "line" and not st["fired"]:
+            st["n"] += 1
+            if st["n"] == k:
+                st["fired"] = True
+                gate.set()
+                resume.wait(10)
+        return local
+
+    def tracer(frame, event, arg):
+        if frame.f_code.co_filename.endswith("sqllineage/config.py"):
+            return local
+        return None
+
+    class NoSched:
+        index = {}
+
+        def finish(self, me):
+            pass
+
+    def run_a():
+        sys.settrace(tracer)
+        try:
+            real_thread(cfg, prog_a, ta, NoSched(), 0)
+        finally:
+            sys.settrace(None)
+            gate.set()
+
+    a = threading.Thread(target=run_a)
+    a.start()
+    gate.wait(10)
+    b = threading.Thread(target=real_thread, args=(cfg, prog_b, tb, NoSched(), 1))
+    b.start()
+    b.join(10)
+    resume.set()
+    a.join(10)
+    return st["fired"], ta, tb
+
+
 def spec_to_real(spec_outs: list[str], prog) -> list[str]:
     """Project the specification's outputs onto what the real-thread runner records:
     reads, 'in' when a scope is entered, RC/RO when an item raises."""
@@ -711,6 +758,28 @@ def main() -> int:
         if leftovers:
             spec_failures.append({"suite": "T1-real-threads", "programs": [programs[i] for i in group],
                                   "spec": "no per-thread entry survives the end of every scope", "left": repr(leftovers)})
+    # ---- real threads pre-empted between any two lines of config.py (sub-operation granularity) ----
+    dist["line_preemption_runs"] = 0
+    lp_pairs = [(a, b) for a in range(len(FIXED_PROGRAMS)) for b in (0, 4, 8)] if quick else \
+               [(a, b) for a in range(len(programs)) for b in range(0, len(programs), 3)]
+    for gi, (ia, ib) in enumerate(lp_pairs):
+        e = gi % len(ENVS)
+        with EnvPatch(ENVS[e]):
+            k = 1
+            while k < 400:
+                cfg = fresh_loader()
+                fired, ta, tb = line_preempt_run(cfg, programs[ia], programs[ib], k)
+                if not fired:
+                    break
+                ck.count()
+                dist["line_preemption_runs"] += 1
+                for who, tr, i in (("A", ta, ia), ("B", tb, ib)):
+                    want = spec_to_real(spec[(e, i)], programs[i])
+                    if tr != want:
+                        spec_failures.append({"suite": "T1-line-preemption", "env": ENVS[e], "program_A": programs[ia],
+                                              "program_B": programs[ib], "A_suspended_after_config_py_line_event": k,
+                                              "thread": who, "impl_outputs": tr, "spec_outputs": want})
+                k += 1
     virtual_ids(True)
 
     # ---- verdict -----------------------------------------------------------
